@@ -53,40 +53,47 @@ pub fn gen_opts() -> GenOpts {
     }
 }
 
+/// Steps that make `k` hold a value of the given kind (the key is deleted first).
+pub fn set_kind(k: &[u8], kind: u8) -> Vec<Step> {
+    let k = k.to_vec();
+    let c: Argv = match kind {
+        0 => vec![b("SET"), k.clone(), b("10")],
+        1 => vec![b("SET"), k.clone(), b("9223372036854775807")],
+        2 => vec![b("SET"), k.clone(), b("-9223372036854775808")],
+        3 => vec![b("SET"), k.clone(), b("1.5e308")],
+        4 => vec![b("SET"), k.clone(), b("hello")],
+        5 => vec![b("RPUSH"), k.clone(), b("a"), b("b"), b("c")],
+        6 => vec![b("RPUSH"), k.clone(), b("x")],
+        7 => vec![b("SADD"), k.clone(), b("a"), b("b"), b("c")],
+        8 => vec![
+            b("HSET"),
+            k.clone(),
+            b("a"),
+            b("1"),
+            b("b"),
+            b("x"),
+            b("c"),
+            b("9223372036854775807"),
+            b(""),
+            b("-9223372036854775808"),
+        ],
+        9 => vec![b("ZADD"), k.clone(), b("1"), b("a"), b("2"), b("b"), b("3"), b("c")],
+        10 => vec![b("SADD"), k.clone(), b("a")],
+        11 => vec![b("HSET"), k.clone(), b("a"), b("5")],
+        12 => vec![b("ZADD"), k.clone(), b("0"), b("a")],
+        _ => vec![b("SET"), k.clone(), b("")],
+    };
+    vec![Step::Cmd(vec![b("DEL"), k]), Step::Cmd(c)]
+}
+
+pub const KINDS: u8 = 14;
+
 /// One typed value placed on a key (+ optional TTL).
 fn seed_steps() -> BoxedStrategy<Vec<Step>> {
-    (any::<u16>(), 0u8..14, 0u8..10)
+    (any::<u16>(), 0u8..KINDS, 0u8..10)
         .prop_map(|(ki, kind, ttl)| {
             let k = pool_key(ki);
-            let mut c: Argv = match kind {
-                0 => vec![b("SET"), k.clone(), b("10")],
-                1 => vec![b("SET"), k.clone(), b("9223372036854775807")],
-                2 => vec![b("SET"), k.clone(), b("-9223372036854775808")],
-                3 => vec![b("SET"), k.clone(), b("1.5e308")],
-                4 => vec![b("SET"), k.clone(), b("hello")],
-                5 => vec![b("RPUSH"), k.clone(), b("a"), b("b"), b("c")],
-                6 => vec![b("RPUSH"), k.clone(), b("x")],
-                7 => vec![b("SADD"), k.clone(), b("a"), b("b"), b("c")],
-                8 => vec![
-                    b("HSET"),
-                    k.clone(),
-                    b("a"),
-                    b("1"),
-                    b("b"),
-                    b("x"),
-                    b("c"),
-                    b("9223372036854775807"),
-                    b(""),
-                    b("-9223372036854775808"),
-                ],
-                9 => vec![b("ZADD"), k.clone(), b("1"), b("a"), b("2"), b("b"), b("3"), b("c")],
-                10 => vec![b("SADD"), k.clone(), b("a")],
-                11 => vec![b("HSET"), k.clone(), b("a"), b("5")],
-                12 => vec![b("ZADD"), k.clone(), b("0"), b("a")],
-                _ => vec![b("SET"), k.clone(), b("")],
-            };
-            let mut out = vec![Step::Cmd(vec![b("DEL"), k.clone()])];
-            out.push(Step::Cmd(std::mem::take(&mut c)));
+            let mut out = set_kind(&k, kind);
             match ttl {
                 6 => out.push(Step::Cmd(vec![b("PEXPIRE"), k, b("50")])),
                 7 => out.push(Step::Cmd(vec![b("PEXPIRE"), k, b("1")])),
@@ -214,7 +221,7 @@ pub fn show_raw(r: &[(String, Value)]) -> String {
     for (k, v) in r {
         let mut d = format!("{:?}", v);
         if d.len() > 300 {
-            d.truncate(300);
+            d = d.chars().take(300).collect();
             d.push('…');
         }
         s.push_str(&format!("    {:?} = {}\n", k, d));
